@@ -16,6 +16,9 @@ R08.5 rolling-hash scan loops: every load of a stream byte indexed by the positi
       of that register with the end made after its last modification.
 R08.6 the ctx layer's variable-length copy helper (memcpy_gte16_*_varlen, one static copy per unit) reads N bytes at
       src + i only under an established i + N <= nbytes, or end-anchored at nbytes - N.
+R08.7 zero length: under the entry assumption len = 0 (the length argument of the CBC, GCM and XTS bodies, value-set
+      interpretation of lib/valset.py) no instruction that stays reachable addresses memory through the in or out
+      argument - 'exactly len output bytes', and no input byte is read that the caller did not supply.
 R08.3 rolling-hash window: in _rolling_hash2_run every address of the form buffer - w / buffer + i - w is computed
       only after the first loop has exited normally (i >= w), before that the window comes from state->history.
 """
@@ -30,6 +33,7 @@ import x86
 import absint
 import c12
 import c19
+import valset
 from report import Finding
 
 LEVEL = "other"
@@ -88,6 +92,41 @@ def worker(lib, objname, extra):
                 inputs[ARGROOTS[k]] = nm
             elif dt.endswith("*") or dt.endswith("* const"):
                 others.add(ARGROOTS[k])
+        # ---- R08.7 zero-length call touches neither buffer
+        lenreg = None
+        bufregs = {}
+        for k, sg in enumerate(sig):
+            if sg and k < 6:
+                if sg[0] in ("len", "len_bytes") and "*" not in (sg[2] or ""):
+                    lenreg = ARGROOTS[k]
+                elif sg[0] in ("in", "out") and "*" in (sg[2] or ""):
+                    bufregs[ARGROOTS[k]] = sg[0]
+        if lenreg and len(bufregs) == 2:
+            out["zero_len"] = out.get("zero_len", 0) + 1
+            vs = valset.run(f, {lenreg: [0]})
+            badz = []
+            for b0 in sorted(vs.reached):
+                for i in f.blocks[b0]:
+                    if i.mem < 0 or i.op.startswith(("LEA", "PREFETCH")):
+                        continue
+                    av = r.maddr.get(i.addr)
+                    if av is None:
+                        continue
+                    rs = absint.roots(av[0])
+                    flat = set()
+                    for rr in (rs or ()):
+                        if isinstance(rr, str):
+                            flat.add(rr)
+                        elif isinstance(rr, tuple) and rr and rr[0] == "ld":
+                            flat |= {x for x in rr[1] if isinstance(x, str)}
+                    hit = sorted(flat & set(bufregs))
+                    if hit:
+                        badz.append((i, hit))
+            if badz:
+                i, hit = badz[0]
+                add("R08.7", name, "len=0", "with len = 0 `%s` stays reachable and %s memory through the %s argument (%d such access(es)): a zero-length call must touch neither buffer" % (i.text.strip(), "writes" if i.writes_mem_operand() else "reads", bufregs[hit[0]], len(badz)), i.addr, key[1])
+            else:
+                out["zero_len_ok"] = out.get("zero_len_ok", 0) + 1
         nst = nld = 0
         tag_root = len_root = None
         for k, sg in enumerate(sig):
@@ -233,6 +272,8 @@ def run(chk):
         tot["masked"] += r.get("masked", 0)
         tot["tagstores"] += r.get("tagstores", 0)
         tot["indexed_table"] += r.get("indexed_table", 0)
+        tot["zero_len"] += r.get("zero_len", 0)
+        tot["zero_len_ok"] += r.get("zero_len_ok", 0)
         for fd in r["findings"]:
             chk.finding(Finding(fd["rule"], fd["obj"], fd["function"], fd["construct"], fd["message"], loc=fd["loc"]))
         for s in r["samples"]:
@@ -243,6 +284,8 @@ def run(chk):
     for c in cand:
         chk.distinct.add(("fn", c))
     chk.obligations["R08.4"] = [tot["tagstores"], tot["tagstores"] - len([f for f in chk.findings if f.rule == "R08.4"])]
+    chk.obligations["R08.7"] = [tot["zero_len"], tot["zero_len_ok"]]
+    chk.floor("bodies with (in, out, len) judged for the zero-length call", tot["zero_len"], 80)
     chk.floor("tag stores judged", tot["tagstores"], 60)
     chk.floor("store instructions judged", tot["stores"], 10000)
     chk.floor("fixed-extent loads judged", tot["loads_fixed"], 3000)
